@@ -43,6 +43,11 @@ pub struct Layout {
     /// parse_main_str
     #[serde(default)]
     pub via_file: bool,
+    /// percent chance of a CONST line between two statements at the top level of the main
+    /// module (a statement that generates no instruction: two statement starts share one
+    /// address)
+    #[serde(default)]
+    pub const_pct: u32,
 }
 
 impl Layout {
@@ -58,6 +63,7 @@ impl Layout {
             spacey: false,
             seed: 0,
             via_file: false,
+            const_pct: 0,
         }
     }
 
@@ -79,6 +85,7 @@ impl Layout {
             spacey: rng.chance(1, 4),
             seed: rng.next_u64(),
             via_file: rng.chance(1, 3),
+            const_pct: *rng.pick(&[0, 0, 12]),
         }
     }
 }
@@ -108,6 +115,9 @@ struct Emitter<'a> {
     /// the current line holds at least one joinable statement
     has_stmt: bool,
     cur_in_function: Option<bool>,
+    /// emitting the main module (CONST filler lines are placed there only)
+    in_main: bool,
+    const_no: u32,
     out: Emitted,
 }
 
@@ -171,7 +181,13 @@ impl<'a> Emitter<'a> {
         self.has_stmt = false;
     }
 
-    fn filler(&mut self) {
+    fn filler(&mut self, depth: usize) {
+        if depth == 0 && self.in_main && self.rng.chance(self.layout.const_pct, 100) {
+            self.const_no += 1;
+            let t = format!("{} {} = {}", self.kw("CONST"), self.ident(&format!("ZK{}", self.const_no)), self.const_no);
+            self.cur.push_str(&t);
+            self.newline();
+        }
         // blank lines and comment lines between statements
         while self.rng.chance(self.layout.blank_pct, 100) {
             self.newline();
@@ -192,7 +208,7 @@ impl<'a> Emitter<'a> {
         if !self.cur.is_empty() {
             self.newline();
         }
-        self.filler();
+        self.filler(depth);
         for _ in 0..(self.layout.indent * depth) {
             self.cur.push(' ');
         }
@@ -825,6 +841,8 @@ pub fn emit(sc: &Scenario, layout: &Layout) -> Emitted {
         closed: false,
         has_stmt: false,
         cur_in_function: None,
+        in_main: true,
+        const_no: 0,
         out: Emitted::default(),
     };
     if uses_subscript(&sc.main) {
@@ -832,6 +850,7 @@ pub fn emit(sc: &Scenario, layout: &Layout) -> Emitted {
         e.line(0, &t);
     }
     e.list(&sc.main, 0, None);
+    e.in_main = false;
     for p in &sc.procs {
         let params: Vec<String> = p.params.iter().map(|x| e.ident(x)).collect();
         let head = if p.is_function { "FUNCTION" } else { "SUB" };
